@@ -38,7 +38,12 @@ def plan(tier, seed, budget):
 
 MUTATIONS = ["none", "none", "undefined_on_path", "return_in_branch", "return_in_loop", "augassign", "del", "try", "with", "comprehension",
              "chained_compare", "multi_target", "break_not_last", "bad_loop_bound", "arity_mismatch", "loop_var_after_loop", "while_non_name",
-             "graph_scan", "graph_scan_msdomain", "graph_capture_modified", "graph_capture_rebound_inside", "call_same_name_two_domains"]
+             "graph_scan", "graph_scan_msdomain", "graph_capture_modified", "graph_capture_rebound_inside", "call_same_name_two_domains",
+             "return_in_static_if_in_branch", "return_in_static_if_in_loop", "undefined_on_path_with_global"]
+# return_in_static_if_*: the `return` sits under `if SCRIPT_TIME_CONSTANT:` (resolved when the script is translated) inside a dynamic branch / loop
+# body: still a return inside control flow.  undefined_on_path_with_global: the variable that is undefined on one path has the name of a module
+# global that could be converted to a tensor (the Python reading raises UnboundLocalError on that path; a graph that silently reads the global
+# computes something else).
 # call_same_name_two_domains: the program calls two script functions that are both NAMED `fn` but live in different domains (legal: a function
 # is identified by domain + name); the model must define both.
 SCRIPT_FUNCTION_DOMAINS = {"this", "dom.a", "dom.b"}
@@ -57,7 +62,8 @@ twin_b = _mk_twin(_Opset("dom.b", 1), 10.0)
 # graph_capture_*: a nested @graph function (Scan body) reads a variable of the enclosing function that is re-assigned between the nested
 # definition and its use as an attribute - the graph would capture the stale value; the converter documents the refusal ("Outer scope
 # variable ... modified"). *_rebound_inside: the nested function also assigns the name after reading it (not even valid Python).
-MUST_REFUSE = {"undefined_on_path", "return_in_branch", "return_in_loop", "loop_var_after_loop", "graph_capture_modified", "graph_capture_rebound_inside"}
+MUST_REFUSE = {"undefined_on_path", "return_in_branch", "return_in_loop", "loop_var_after_loop", "graph_capture_modified", "graph_capture_rebound_inside",
+               "return_in_static_if_in_branch", "return_in_static_if_in_loop", "undefined_on_path_with_global"}
 
 
 def _first(stmts, kind):
@@ -82,6 +88,27 @@ def mutate(prog, kind, draw):
         body.append(If(cond, [Assign(["fresh_only_then"], Call("Identity", [Var(x)], {}))], [Assign(["other_var"], Call("Identity", [Var(x)], {}))]))
         p.returns = [Var("fresh_only_then")]
         p.ret_types = [(p.params[0][1], p.params[0][2])]
+        return p
+    if kind == "undefined_on_path_with_global":
+        cond = Bin(">", Call("ReduceSum", [Var(x)], {"keepdims": 0}), Lit(0))
+        if p.params[0][1] == "BOOL":
+            return None
+        then_only = draw(st.booleans())
+        a1 = [Assign(["G_SCALE"], Call("Identity", [Var(x)], {}))]
+        a2 = [Assign(["other_var"], Call("Identity", [Var(x)], {}))]
+        body.append(If(cond, a1 if then_only else a2, a2 if then_only else a1))
+        p.returns = [Var("G_SCALE")]
+        p.ret_types = [(p.params[0][1], p.params[0][2])]
+        return p
+    if kind in ("return_in_static_if_in_branch", "return_in_static_if_in_loop"):
+        if p.params[0][1] == "BOOL":
+            return None
+        ret = "if G_FLAG:\n    return " + ", ".join(scriptgen.expr_src(e) for e in p.returns)
+        if kind.endswith("branch"):
+            cond = Bin(">", Call("ReduceSum", [Var(x)], {"keepdims": 0}), Lit(0))
+            body.append(If(cond, [Assign(["zz"], Call("Identity", [Var(x)], {})), Raw(ret)], [Assign(["zz"], Call("Identity", [Var(x)], {}))]))
+        else:
+            body.append(For("q", Lit(2), [Assign(["zz"], Call("Identity", [Var(x)], {})), Raw(ret)]))
         return p
     if kind == "return_in_branch":
         if p.params[0][1] == "BOOL":
@@ -212,7 +239,8 @@ def evaluate(source, prog, kind):
         import onnxscript
         from onnxscript import values as _values
 
-        mod = scriptgen.compile_source(source, prog.opset, extra_globals={"graph": onnxscript.graph, "msop": _values.Opset("com.microsoft", 1)})
+        mod = scriptgen.compile_source(source, prog.opset, extra_globals={"graph": onnxscript.graph, "msop": _values.Opset("com.microsoft", 1),
+                                                                          "G_FLAG": True, "G_SCALE": 2.0})
     except Exception as e:  # noqa: BLE001
         msg = f"{type(e).__name__}: {e}"
         info["refused"] = msg[:200]
